@@ -63,7 +63,7 @@ T = {
     "C04-m5-constant-fold-keeps-python-float": ("Rewriter.constant no longer converts Python floats to the target dtype before folding", "a fold of two constants that are inexact in float32 (0.1 + 0.2 == 0.3)", False, "C04 scope F: comparisons and operations over foldable pairs of constants that are not representable in float32"),
     "C05-m4-cpp-ge-as-gt": ("C++ ge template emits >", "operands of ge exactly equal", True, ""),
     "C05-m5-numpy-make-argument-ref": ("numpy make_argument prints arg.ref", "one Context re-used with the same parameter name in another dtype", True, ""),
-    "C05-m6-trace-resets-ref-registry": ("Context.trace resets the reference registry", "one Context: trace+emit first, then trace second with a shared sub-expression whose cached name is re-bound", True, ""),
+    "C05-m6-trace-resets-ref-registry": ("Context.trace resets the reference registry", "one Context: trace+emit first, then trace second with a shared sub-expression whose cached name is re-bound", False, "C05 Context-reuse recipes in which consecutive definitions give the same user-chosen name to different expressions around a shared sub-expression (the first ad-hoc 'catch' of this seed had been a transient false alarm of my own)"),
     "C06-m3-stablehlo-arg-constraint-from-last-arg": ("stablehlo Pat header takes every argument's element constraint from the last argument", "a signature mixing real and complex arguments", True, ""),
     "C06-m4-cpp-make-constant-neginf-sign": ("cpp make_constant (constant printer of xla_client): -inf printed as +infinity", "a raw float -inf constant (not the named neginf) on xla_client", False, "C06 constants: numeric +-inf and -0.0 in the lattice"),
     "C06-m5-xla-log10-as-log1p": ("xla_client table: log10 rendered as Log1p", "a native log10 node on xla_client", False, "C06 lattice derives its kinds from both reference tables and the target's own table (every declared kind is exercised)"),
